@@ -95,6 +95,12 @@ structure Media where
 
 def maxSupportedVersion : Int := 10
 
+/-- `if o != nil { ret += f(*o) }` -/
+def optList {α β} (o : Option α) (f : α → List β) : List β :=
+  match o with
+  | some a => f a
+  | none => []
+
 /-! ## Tag literals -/
 
 def yes : Str := cs!"YES"
@@ -143,8 +149,8 @@ def ServerControl.unmarshal (v : Str) : Res ServerControl := do
 def ServerControl.marshalLegacy (t : ServerControl) : Str :=
   cs!"#EXT-X-SERVER-CONTROL:" ++
     (if t.canBlockReload then cs!"CAN-BLOCK-RELOAD=YES" else []) ++
-    (match t.partHoldBack with | some d => cs!",PART-HOLD-BACK=" ++ C.fmtDur d | none => []) ++
-    (match t.canSkipUntil with | some d => cs!",CAN-SKIP-UNTIL=" ++ C.fmtDur d | none => []) ++
+    (optList t.partHoldBack fun d => cs!",PART-HOLD-BACK=" ++ C.fmtDur d) ++
+    (optList t.canSkipUntil fun d => cs!",CAN-SKIP-UNTIL=" ++ C.fmtDur d) ++
     ['\n']
 
 /-- `strings.Join(xs, ",")` -/
@@ -155,8 +161,8 @@ def joinComma : List Str → Str
 
 def ServerControl.attrTexts (t : ServerControl) : List Str :=
   (if t.canBlockReload then [cs!"CAN-BLOCK-RELOAD=YES"] else []) ++
-    (match t.partHoldBack with | some d => [cs!"PART-HOLD-BACK=" ++ C.fmtDur d] | none => []) ++
-    (match t.canSkipUntil with | some d => [cs!"CAN-SKIP-UNTIL=" ++ C.fmtDur d] | none => [])
+    (optList t.partHoldBack fun d => [cs!"PART-HOLD-BACK=" ++ C.fmtDur d]) ++
+    (optList t.canSkipUntil fun d => [cs!"CAN-SKIP-UNTIL=" ++ C.fmtDur d])
 
 /-- the repaired tree (fix-F3): present attributes joined with commas -/
 def ServerControl.marshal (t : ServerControl) : Str :=
@@ -195,9 +201,7 @@ def MapTag.unmarshal (v : Str) : Res MapTag := do
 
 def MapTag.marshal (t : MapTag) : Str :=
   cs!"#EXT-X-MAP:URI=\"" ++ t.uri ++ ['"'] ++
-    (match t.brLen with
-     | some l => cs!",BYTERANGE=" ++ ByteRange.marshal { length := l, start := t.brStart }
-     | none => []) ++
+    (optList t.brLen fun l => cs!",BYTERANGE=" ++ ByteRange.marshal { length := l, start := t.brStart }) ++
     ['\n']
 
 /-! ## EXT-X-KEY (`media_key.go`) -/
@@ -276,7 +280,7 @@ def PreloadHint.unmarshal (v : Str) : Res PreloadHint := do
 def PreloadHint.marshal (t : PreloadHint) : Str :=
   cs!"#EXT-X-PRELOAD-HINT:TYPE=PART,URI=\"" ++ t.uri ++ ['"'] ++
     (if t.brStart ≠ 0 then cs!",BYTERANGE-START=" ++ formatNat t.brStart else []) ++
-    (match t.brLen with | some l => cs!",BYTERANGE-LENGTH=" ++ formatNat l | none => []) ++
+    (optList t.brLen fun l => cs!",BYTERANGE-LENGTH=" ++ formatNat l) ++
     ['\n']
 
 section
@@ -306,9 +310,7 @@ def Part.unmarshal (v : Str) : Res Part := do
 def Part.marshal (p : Part) : Str :=
   cs!"#EXT-X-PART:DURATION=" ++ C.fmtDur p.duration ++ cs!",URI=\"" ++ p.uri ++ ['"'] ++
     (if p.independent then cs!",INDEPENDENT=YES" else []) ++
-    (match p.brLen with
-     | some l => cs!",BYTERANGE=" ++ ByteRange.marshal { length := l, start := p.brStart }
-     | none => []) ++
+    (optList p.brLen fun l => cs!",BYTERANGE=" ++ ByteRange.marshal { length := l, start := p.brStart }) ++
     (if p.gap then cs!",GAP=YES" else []) ++
     ['\n']
 
@@ -326,17 +328,11 @@ def Segment.validate (s : Segment) : Res Unit :=
 def Segment.marshal (s : Segment) : Str :=
   (if s.discontinuity then cs!"#EXT-X-DISCONTINUITY\n" else []) ++
     (if s.gap then cs!"#EXT-X-GAP\n" else []) ++
-    (match s.dateTime with
-     | some t => cs!"#EXT-X-PROGRAM-DATE-TIME:" ++ C.fmtTime t ++ ['\n']
-     | none => []) ++
-    (match s.bitrate with
-     | some v => cs!"#EXT-X-BITRATE:" ++ formatInt v ++ ['\n']
-     | none => []) ++
+    (optList s.dateTime fun t => cs!"#EXT-X-PROGRAM-DATE-TIME:" ++ C.fmtTime t ++ ['\n']) ++
+    (optList s.bitrate fun v => cs!"#EXT-X-BITRATE:" ++ formatInt v ++ ['\n']) ++
     marshalParts C s.parts ++
     cs!"#EXTINF:" ++ C.fmtDur s.duration ++ [','] ++ s.title ++ ['\n'] ++
-    (match s.brLen with
-     | some l => cs!"#EXT-X-BYTERANGE:" ++ ByteRange.marshal { length := l, start := s.brStart } ++ ['\n']
-     | none => []) ++
+    (optList s.brLen fun l => cs!"#EXT-X-BYTERANGE:" ++ ByteRange.marshal { length := l, start := s.brStart } ++ ['\n']) ++
     s.uri ++ ['\n']
 
 /-! ## `Media.Unmarshal` -/
@@ -547,38 +543,20 @@ def Media.marshalGen (L : Legacy) (m : Media) : Str :=
   cs!"#EXTM3U\n" ++
     cs!"#EXT-X-VERSION:" ++ formatInt m.version ++ ['\n'] ++
     (if m.independentSegments then cs!"#EXT-X-INDEPENDENT-SEGMENTS\n" else []) ++
-    (match m.start with
-     | some t => if L.f1 then [] else Start.marshal C t
-     | none => []) ++
-    (match m.allowCache with
-     | some v => cs!"#EXT-X-ALLOW-CACHE:" ++ (if v then cs!"YES" else cs!"NO") ++ ['\n']
-     | none => []) ++
+    (optList m.start fun t => if L.f1 then [] else Start.marshal C t) ++
+    (optList m.allowCache fun v => cs!"#EXT-X-ALLOW-CACHE:" ++ (if v then cs!"YES" else cs!"NO") ++ ['\n']) ++
     cs!"#EXT-X-TARGETDURATION:" ++ formatInt m.targetDuration ++ ['\n'] ++
-    (match m.serverControl with
-     | some t => if L.f3 then ServerControl.marshalLegacy C t else ServerControl.marshal C t
-     | none => []) ++
-    (match m.partInf with
-     | some t => PartInf.marshal C t
-     | none => []) ++
+    (optList m.serverControl fun t => if L.f3 then ServerControl.marshalLegacy C t else ServerControl.marshal C t) ++
+    (optList m.partInf fun t => PartInf.marshal C t) ++
     cs!"#EXT-X-MEDIA-SEQUENCE:" ++ formatInt m.mediaSequence ++ ['\n'] ++
-    (match m.discontinuitySequence with
-     | some v => cs!"#EXT-X-DISCONTINUITY-SEQUENCE:" ++
-        formatInt (if L.f2 then m.mediaSequence else v) ++ ['\n']
-     | none => []) ++
-    (match m.playlistType with
-     | some v => cs!"#EXT-X-PLAYLIST-TYPE:" ++ v ++ ['\n']
-     | none => []) ++
-    (match m.map with
-     | some t => MapTag.marshal t
-     | none => []) ++
-    (match m.skip with
-     | some t => Skip.marshal t
-     | none => []) ++
+    (optList m.discontinuitySequence fun v => cs!"#EXT-X-DISCONTINUITY-SEQUENCE:" ++
+        formatInt (if L.f2 then m.mediaSequence else v) ++ ['\n']) ++
+    (optList m.playlistType fun v => cs!"#EXT-X-PLAYLIST-TYPE:" ++ v ++ ['\n']) ++
+    (optList m.map fun t => MapTag.marshal t) ++
+    (optList m.skip fun t => Skip.marshal t) ++
     marshalSegments C none m.segments ++
     marshalParts C m.parts ++
-    (match m.preloadHint with
-     | some t => PreloadHint.marshal t
-     | none => []) ++
+    (optList m.preloadHint fun t => PreloadHint.marshal t) ++
     (if m.endlist then cs!"#EXT-X-ENDLIST\n" else [])
 
 /-- `Media.Marshal` of the repaired tree (fix-F1, fix-F2, fix-F3 applied) -/
